@@ -239,6 +239,10 @@ def scan_features(prog, f):
                     loc = canon(tr.operand(fields["locals"])) if "locals" in fields else ""
                     if crc == kvec and "VariableMap::nested(cast(&**arg:exec.locals))" in loc:
                         ctx_ok = True
+                        # the bindings are made for every selected match: the group iteration is on every path to the arm's context
+                        its = [x for x, tx in body.calls() if is_callee(tx, r"regex::Captures::<'h>::iter$|Captures::iter$")]
+                        if not any(body.dominates(x, b) for x in its):
+                            problems.append(("F7", "the $k bindings are made only on some paths to the arm's block (the group iteration does not dominate the arm context): an arm can run with missing captures"))
         if ctx_ok:
             feats["F7b"] = "arm context: current_regex_captures = $k vector, locals = nested(exec.locals)"
         else:
@@ -339,7 +343,8 @@ def if_features(prog, f, test_name):
 
 def _plain_iter(s):
     """`IntoIterator::into_iter(&*X)` / slice::iter(X) -> X; anything else (rev, skip, filter…) -> None"""
-    m = re.match(r"^&IntoIterator::into_iter\(&\*?(.*)\)$", s)
+    m = re.match(r"^&IntoIterator::into_iter\(&\*?(.*)\)$", s) or re.match(r"^&slice::iter(?:_mut)?\(&\*Deref(?:Mut)?::deref(?:_mut)?\(&\*?(.*)\)\)$", s) \
+        or re.match(r"^&slice::iter(?:_mut)?\(&\*?(.*)\)$", s)
     if not m:
         return None
     inner = m.group(1)
